@@ -21,7 +21,7 @@ from ..dataflow import Flow, chain, call_name
 from ..poly import Poly
 from ..terms import Terms, reify, plain, match, V, ANY, show, subterms, \
     mk_cmp, is_none, stores, method_calls, alternatives, one_level, SITES, \
-    owner_views
+    owner_views, split_cond
 from ..util import calls_in, qual, formals, raises_of, raise_name, \
     returns_of
 
@@ -348,18 +348,40 @@ def r2_explicit(program, rep):
               construct="length guard", node=fn)
     # the overlap scan (in the function or in a helper it calls)
     scans = []
+    WANT = ("call", ("attr", ("attr", SELF, "fields"), "potential_fields"),
+            (("attr", SELF, "field_values"),), ())
+    pre_filter = {}
     for sub in ast.walk(fn):
-        if isinstance(sub, ast.For) and isinstance(sub.iter, ast.Call) and \
-                call_name(sub.iter)[0] == "potential_fields":
-            for view in owner_views(T, sub):
+        if not isinstance(sub, ast.For):
+            continue
+        for view in owner_views(T, sub):
+            try:
+                it = view.term(sub.iter, view.cfg.loop_head[id(sub)])
+            except (AnalysisError, KeyError):
+                continue
+            pit = plain(it)
+            conds = []
+            if pit[0] in ("genexp", "listcomp") and len(pit[2]) == 1 and \
+                    pit[1] in (("elem", pit[2][0][0]),):
+                # a pre-filtered scan: the filter's conditions hold for
+                # every element visited
+                conds = [x for c_ in it[2][0][1] for x in split_cond(c_,
+                                                                     True)]
+                it = it[2][0][0]
+                pit = plain(it)
+            if pit[0] == "call" and pit[1][0] == "attr" and \
+                    pit[1][2] == "potential_fields":
                 scans.append((view, sub))
+                pre_filter[id(sub)] = (it, conds)
+    if not scans:
+        raise AnalysisError("add_field: the scan of the fields that can be "
+                            "present together was not found in the form "
+                            "analysed")
     okdom = len(scans) == 1
     if okdom:
         view, lp = scans[0]
-        it = view.term(lp.iter, view.cfg.loop_head[id(lp)])
-        okdom = plain(it) == ("call", ("attr", ("attr", SELF, "fields"),
-                                       "potential_fields"),
-                              (("attr", SELF, "field_values"),), ())
+        it = pre_filter[id(lp)][0]
+        okdom = plain(it) == WANT
     rep.check(okdom, "C08-R2", inst,
               "the new field is compared with every field that can be "
               "present together with it (potential_fields)",
@@ -374,10 +396,10 @@ def r2_explicit(program, rep):
     if len(rs) != 1:
         raise AnalysisError("add_field: expected one raise in the overlap "
                             "scan")
-    it = view.term(lp.iter, view.cfg.loop_head[id(lp)])
+    it, pre_conds = pre_filter[id(lp)]
     OTHER = ("comp", ("elem", it), 1)
     OS = ("attr", OTHER, "start_at")
-    rf = view.all_facts(view.cfg.node_of(rs[0]))
+    rf = view.all_facts(view.cfg.node_of(rs[0])) + list(pre_conds)
     cmps = [(t, p) for t, p in rf if t[0] == "cmp" and
             t[1] in ("Lt", "LtE") and any(
                 st == OS for st in subterms(t))]
@@ -474,6 +496,7 @@ def r3_masks(program, rep):
     ps = formals(fn)
     OCC = ps[-1] if "assigned_bits" not in ps else "assigned_bits"
     ok = dom_ok = acc = False
+    seen_mask = False
     for b_ in T.binds:
         if b_.var != OCC or b_.mode not in ("assign", "aug"):
             continue
@@ -493,6 +516,7 @@ def r3_masks(program, rep):
             continue
         mf = _mask_form(fl, other)
         if mf is not None and lp is not None:
+            seen_mask = True
             F = [st for st in subterms(other) if st[0] == "attr" and
                  st[2] == "length"]
             ok = bool(F) and mf[0] == _poly(fl, F[0]) and \
@@ -504,6 +528,10 @@ def r3_masks(program, rep):
             f = T.all_facts(b_.node)
             ok = ok and (is_none(F[0]), False) in f and \
                 (is_none(("attr", F[0][1], "start_at")), False) in f
+    if not seen_mask:
+        raise AnalysisError("_assign_fields: where the bits of the fields "
+                            "already laid out are collected was not found "
+                            "in the form analysed")
     rep.check(ok, "C08-R3", qual(fn), "occupancy |= ((1 << f.length) - 1) "
               "<< f.start_at for every potential field whose length and "
               "position are known", construct="_assign_fields formula",
@@ -583,7 +611,8 @@ def r4_order(program, rep):
     if len(rec) != 1:
         raise AnalysisError("assign_fields: the leaf-first recursion")
     rec = rec[0]
-    c1 = [c for c in calls_in(fn, "_assign_fields") if not _inside(c, rec)]
+    c1 = [c for c in ast.walk(fn) if isinstance(c, ast.Call) and
+          call_name(c)[0] == "_assign_fields" and not _inside(c, rec)]
     c2 = [c for c in calls_in(rec, "_assign_fields")]
     okf = len(c1) == 1 and len(c2) == 1
     if okf:
@@ -593,11 +622,29 @@ def r4_order(program, rep):
             kw1["assign_positions"].value is False and \
             isinstance(kw2.get("assign_positions"), ast.Constant) and \
             kw2["assign_positions"].value is True
-        starts = [c for c in calls_in(fn, rec.name) if not _inside(c, rec)]
-        okf = okf and len(starts) == 1 and cfg.reaches(
-            cfg.node_containing(c1[0]), cfg.node_containing(starts[0])) and \
-            not cfg.reaches(cfg.node_containing(starts[0]),
-                            cfg.node_containing(c1[0]))
+        starts = [c for c in ast.walk(fn) if isinstance(c, ast.Call) and
+                  call_name(c)[0] == rec.name and not _inside(c, rec)]
+
+        def site(c):
+            # the statement of fn itself that (through helpers) performs c
+            for _ in range(4):
+                owner = c
+                while owner is not None and not isinstance(
+                        owner, ast.FunctionDef):
+                    owner = getattr(owner, "_parent", None)
+                if owner is fn:
+                    return cfg.node_containing(c)
+                cs = [x for x in ast.walk(fn) if isinstance(x, ast.Call)
+                      and call_name(x)[0] == owner.name and
+                      not _inside(x, owner)]
+                if len(cs) != 1:
+                    break
+                c = cs[0]
+            raise AnalysisError("assign_fields: where a pass is started")
+        okf = okf and len(starts) == 1
+        if okf:
+            s1, s2 = site(c1[0]), site(starts[0])
+            okf = cfg.reaches(s1, s2) and not cfg.reaches(s2, s1)
     rep.check(okf, "C08-R4", inst, "fixed-position fields get their lengths "
               "first (assign_positions=False), floating fields are placed "
               "afterwards", construct="pass order", node=fn)
@@ -616,6 +663,19 @@ def r4_order(program, rep):
     okd = True
     n_sites = 0
     detail = ""
+    def view_of(node_):
+        owner = node_
+        while owner is not None and not isinstance(owner, ast.FunctionDef):
+            owner = getattr(owner, "_parent", None)
+        if owner is fn:
+            return T, fn
+        if owner is rec:
+            return R, rec
+        vs = T.inners(owner)
+        if len(vs) != 1:
+            raise AnalysisError("assign_fields: a pass is run from several "
+                                "places")
+        return vs[0], owner
     for view, f_ in ((T, fn), (R, rec)):
         for lp in ast.walk(f_):
             if not (isinstance(lp, ast.For) and any(
@@ -624,7 +684,8 @@ def r4_order(program, rep):
                 continue
             if f_ is fn and _inside(lp, rec):
                 continue
-            ok_l, why = _child_values(view, f_, lp)
+            view, f2 = view_of(lp)
+            ok_l, why = _child_values(view, f2, lp)
             n_sites += 1
             if not ok_l:
                 okd = False
@@ -637,6 +698,7 @@ def r4_order(program, rep):
                 if f_ is fn and _inside(ge, rec):
                     continue
                 n_sites += 1
+                view, f2 = view_of(ge)
                 ok_l, why = _child_values_comp(view, ge)
                 if not ok_l:
                     okd = False
@@ -666,17 +728,14 @@ def _fresh_child_dict(t, loop_node, helpers):
 
 def _child_values(view, f_, lp):
     """The dictionary handed on for a child in the loop ``lp``."""
-    helpers = [x for x in ast.walk(view.fn if hasattr(view, "fn") else f_)
-               if isinstance(x, ast.FunctionDef)]
-    root = view
-    while getattr(root, "outer", None) is not None:
-        root = root.outer[0]
-    helpers = [x for x in ast.walk(root.fn)
-               if isinstance(x, ast.FunctionDef) and x is not root.fn and
+    rfn = _root_fn(view)
+    helpers = [x for x in ast.walk(rfn)
+               if isinstance(x, ast.FunctionDef) and x is not rfn and
                not calls_in(x, x.name)]
+    vt = getattr(view, "t", view)
     head = view.cfg.loop_head[id(lp)]
-    E = view._elem(view.term(lp.iter, head))
-    REQ = view._comp(E, 0, 2)
+    E = vt._elem(view.term(lp.iter, head))
+    REQ = vt._comp(E, 0, 2)
     handed = []
     for c in ast.walk(lp):
         if isinstance(c, ast.Call) and (
@@ -699,10 +758,22 @@ def _child_values(view, f_, lp):
     return True, ""
 
 
-def _child_values_comp(view, ge):
+def _root_fn(view):
     root = view
-    helpers = [x for x in ast.walk(root.fn)
-               if isinstance(x, ast.FunctionDef) and x is not root.fn and
+    for _ in range(8):
+        if hasattr(root, "host"):
+            root = root.host
+        elif getattr(root, "outer", None) is not None:
+            root = root.outer[0]
+        else:
+            break
+    return root.fn
+
+
+def _child_values_comp(view, ge):
+    rfn = _root_fn(view)
+    helpers = [x for x in ast.walk(rfn)
+               if isinstance(x, ast.FunctionDef) and x is not rfn and
                not calls_in(x, x.name)]
     n = view.cfg.node_containing(ge)
     t = view.term(ge, n)
